@@ -274,6 +274,12 @@ Vector Spherical_Coordinates(double r, double theta, double phi, const Vector& a
 	libphysica::Vector ev = axis.Normalized();
 	if(ev[2] == 1.0 || axis.Norm() == 0.0)
 		return Spherical_Coordinates(r, theta, phi);
+	else if(ev[2] == -1.0)
+	{
+		// Axis antiparallel to z: the general expression below divides by sqrt(1-ev_z^2)=0.
+		std::vector<double> comp = {-r * sin(theta) * cos(phi), r * sin(theta) * sin(phi), -r * cos(theta)};
+		return Vector(comp);
+	}
 	else
 	{
 		double aux = sqrt(1.0 - pow(ev[2], 2.0));
